@@ -148,7 +148,10 @@ fn route_value(x: &Locale, k: u32) -> Result<Locale, &'static str> {
             y = Locale::from(li);
             y.extensions = x.extensions.clone();
         }
-        5 => {
+        5 | 10 => {
+            // 10: the same with an extra `true` after the values of every keyword and before the values of every tfield
+            // that is set again (`true` is never stored)
+            let extra = k == 10;
             let u = &x.extensions.unicode;
             let attrs: Vec<String> = u.attributes().map(|s| s.to_string()).collect();
             for a in &attrs {
@@ -159,14 +162,20 @@ fn route_value(x: &Locale, k: u32) -> Result<Locale, &'static str> {
             }
             let keys: Vec<String> = u.keyword_keys().map(|s| s.to_string()).collect();
             for k in keys.iter().rev() {
-                let vals: Vec<String> = u.keyword(k).map(|it| it.map(|s| s.to_string()).collect()).unwrap_or_default();
+                let mut vals: Vec<String> = u.keyword(k).map(|it| it.map(|s| s.to_string()).collect()).unwrap_or_default();
+                if extra {
+                    vals.push("true".to_string());
+                }
                 let _ = y.extensions.unicode.remove_keyword(k);
                 let _ = y.extensions.unicode.set_keyword(k.clone(), &vals);
             }
             let t = &x.extensions.transform;
             let tkeys: Vec<String> = t.tfield_keys().map(|s| s.to_string()).collect();
             for k in tkeys.iter().rev() {
-                let vals: Vec<String> = t.tfield(k).map(|it| it.map(|s| s.to_string()).collect()).unwrap_or_default();
+                let mut vals: Vec<String> = t.tfield(k).map(|it| it.map(|s| s.to_string()).collect()).unwrap_or_default();
+                if extra {
+                    vals.insert(0, "true".to_string());
+                }
                 let _ = y.extensions.transform.remove_tfield(k);
                 let _ = y.extensions.transform.set_tfield(k.clone(), &vals);
             }
